@@ -11,7 +11,8 @@ import (
 func getEnumBasicLitValue(basicLit *ast.BasicLit) interface{} {
 	switch basicLit.Kind.String() {
 	case "INT":
-		if result, err := strconv.ParseInt(basicLit.Value, 10, 64); err == nil {
+		// base 0: hexadecimal, octal and binary literals, and digit separators, are integer literals too
+		if result, err := strconv.ParseInt(basicLit.Value, 0, 64); err == nil {
 			return result
 		}
 	case "FLOAT":
